@@ -19,7 +19,10 @@ type minimiser struct {
 	sig   string
 	tried int
 	last  scn.Violation
+	flaky bool // the violation needed several executions of the same scenario to show again
 }
+
+const flakyTries = 8
 
 func clone(s *scn.Scenario) *scn.Scenario {
 	raw, _ := json.Marshal(s)
@@ -106,7 +109,23 @@ func (m *minimiser) minimise(s0 *scn.Scenario) *scn.Scenario {
 	orig := s0.Sched
 	cur := clone(s0)
 	// 0. exact tapes of the failing run
-	if ok, res := m.fails(cur); ok && res != nil {
+	ok, res := m.fails(cur)
+	for k := 1; !ok && k < flakyTries; k++ {
+		// The run from its seed did not show the violation again. The simulator
+		// decides every schedule and fault, so the code under test must draw on
+		// something outside it (map iteration order, addresses, a real clock): such
+		// a violation shows with some probability only. It is still a violation:
+		// try a few more times, and do not minimise (every candidate would be a
+		// coin toss).
+		ok, res = m.fails(cur)
+		if ok {
+			m.flaky = true
+		}
+	}
+	if ok && m.flaky {
+		return cur
+	}
+	if ok && res != nil {
 		t := clone(cur)
 		t.Sched.Replay, t.Sched.Tape = true, res.Tape
 		t.Faults.Replay, t.Faults.Tape = true, res.FaultTape
@@ -395,14 +414,33 @@ func reportViolation(b *build, prop string, v violRun) (string, bool) {
 	// final confirmation in a fresh process
 	used := m.tried
 	m.tried = 0
-	if ok, _ := m.fails(min); !ok {
+	if m.flaky {
+		minimised = false
+		ok := false
+		for k := 0; !ok && k < flakyTries; k++ {
+			ok, _ = m.fails(min)
+		}
+		if !ok {
+			return "", false
+		}
+	} else if ok, _ := m.fails(min); !ok {
+		// the minimised candidate does not fail again: back to the run as it was;
+		// if that one fails only now and then, the violation is a flaky one
 		min, minimised = v.scn, false
-		if ok, _ := m.fails(min); !ok {
+		ok := false
+		for k := 0; !ok && k < flakyTries; k++ {
+			ok, _ = m.fails(min)
+			m.flaky = m.flaky || (ok && k > 0)
+		}
+		if !ok {
 			return "", false
 		}
 	}
 	rp := scn.Replay{Property: prop, Signature: v.v.Sig, Oracle: m.last.Oracle, Detail: m.last.Detail, RepoHead: b.head, RepoDiff: b.diff,
-		Minimised: minimised, Scenario: min, Steps: b.decodeTrace(dir, min)}
+		Minimised: minimised, Scenario: min, Steps: b.decodeTrace(dir, min), Flaky: m.flaky}
+	if m.flaky {
+		rp.Detail += " [this violation does not show in every execution of the same scenario although the simulator fixes every schedule and fault decision: the code under test draws on nondeterminism outside the simulator's control (map iteration order, addresses, a real clock); the replay command executes the file up to " + fmt.Sprint(2*flakyTries) + " times]"
+	}
 	vd := verifDir()
 	out := os.Getenv("VERIF_REPLAY_DIR")
 	if out == "" {
